@@ -185,3 +185,22 @@ MUTANTS += [
          old="            return_value = func(*((self,) + args), **kwargs)\n            self._is_finished_build = True",
          new="            self._new_cache.write(cache_filename)\n            return_value = func(*((self,) + args), **kwargs)\n            self._is_finished_build = True"),
 ]
+
+MUTANTS += [
+    # ---- C11
+    dict(name='c11_args_not_copied_for_subbuild', props=['C11'], file=FB,
+         old="                    func, [self] + copy.deepcopy(operation.args),\n                    copy.deepcopy(operation.kwargs), description)",
+         new="                    func, [self] + operation.args,\n                    operation.kwargs, description)"),
+    dict(name='c11_args_not_copied_for_build_file', props=['C11'], file=FB,
+         old="                func, [self, filename] + copy.deepcopy(operation.args),\n                copy.deepcopy(operation.kwargs),",
+         new="                func, [self, filename] + operation.args,\n                operation.kwargs,"),
+    dict(name='c11_query_result_not_copied', props=['C11'], file=FB,
+         old="        # Return a copy, so that the caller can't alter the cache entry\n        return copy.deepcopy(operation.return_value)",
+         new="        return operation.return_value"),
+    dict(name='c11_shallow_copy_of_return_value', props=['C11'], file=FB,
+         old="            suboperation.is_finished = True\n            self._append_suboperation(suboperation)\n\n        # Return a copy, so that the caller can't alter the cache entry\n        return copy.deepcopy(suboperation.return_value)\n\n    def subbuild(",
+         new="            suboperation.is_finished = True\n            self._append_suboperation(suboperation)\n\n        return copy.copy(suboperation.return_value)\n\n    def subbuild("),
+    dict(name='c11_sanitize_returns_same_object_for_lists_of_atoms', props=['C11', 'C18'], file=JU,
+         old="        if isinstance(value, (list, tuple)):\n            return list([JsonUtil.sanitize(element) for element in value])",
+         new="        if cls == list and all(e.__class__ in (int, str) for e in value):\n            return value\n        if isinstance(value, (list, tuple)):\n            return list([JsonUtil.sanitize(element) for element in value])"),
+]
